@@ -31,6 +31,13 @@ pub enum Op {
     /// Block until the body of an earlier own task has started (harness-side condvar).
     WaitRun { task: u8 },
     Yield { n: u8 },
+    /// Spawn a regular task whose body blocks until the body of task `on` has started (a task that
+    /// depends on another task of the same pool; legal whenever the pool has a worker to spare).
+    /// Only generated in `pre`, directly followed by the spawn of `on` and later by its own `Await`.
+    SpawnDependent { task: u8, on: u8 },
+    /// Block until at least `n` pool workers are parked in their wait (listener registered, nothing
+    /// to do): places the next spawns exactly at "every worker of the processor is idle".
+    WaitWorkersIdle { n: u8 },
 }
 
 #[derive(Clone, Debug, Serialize, Deserialize)]
@@ -60,6 +67,9 @@ pub struct YieldSite {
 #[derive(Clone, Copy, Debug, Serialize, Deserialize, PartialEq, Eq)]
 pub enum Directed {
     None,
+    /// Two back-to-back spawns while both workers of the processor are idle; the first task needs
+    /// the second to run (ordinary oracles; the shape is what is directed).
+    IdlePair,
     /// After the late spawn, poll once and convict if pending while no worker is alive.
     LateSpawn,
     /// Hold the first spawner between the shutdown check and the state creation until the pool's
@@ -98,9 +108,13 @@ impl VScenario {
         match mode {
             m if m == format!("known-{KEY_LATE}") => return Self::gen_known_late(rng),
             m if m == format!("known-{KEY_RACE}") => return Self::gen_known_race(rng),
+            m if m == format!("known-{}", crate::KEY_IDLE_PAIR) => return Self::gen_idle_pair(rng, false),
             _ => {}
         }
         let faulty = mode.starts_with("faulty");
+        if !avoid(crate::KEY_IDLE_PAIR) && rng.chance(1, 6) {
+            return Self::gen_idle_pair(rng, faulty);
+        }
         let late_ok = !avoid(KEY_LATE);
         let processors = rng.range(1, 4) as u8;
         let workers_per_processor = if rng.chance(2, 3) { 1 } else { 2 };
@@ -246,6 +260,91 @@ impl VScenario {
             sub_seed: rng.next_u64(),
             hang_secs: 5,
         }
+    }
+
+    /// One spawner thread on a processor with two workers: warm the workers up, wait until both are
+    /// parked, then spawn A (needs B to have started) and B back to back, await both. With a worker
+    /// to spare for B this must always terminate; it hangs if the second spawn wakes nobody.
+    fn gen_idle_pair(rng: &mut Rng, faulty: bool) -> Self {
+        let processors = rng.range(1, 2) as u8;
+        let processor = rng.below(u64::from(processors)) as u8;
+        let mut pre = Vec::new();
+        let mut next = 0_u8;
+        let warm = rng.range(1, 2) as u8;
+        for _ in 0..warm {
+            pre.push(Op::Spawn { task: next, kind: gen_kind(rng), panics: false, detach: false });
+            if matches!(pre.last(), Some(Op::Spawn { kind, .. }) if kind.has_handle()) {
+                pre.push(Op::Await { task: next });
+            } else {
+                pre.push(Op::WaitRun { task: next });
+            }
+            next += 1;
+        }
+        let rounds = rng.range(1, 2);
+        for _ in 0..rounds {
+            let (a, b) = (next, next + 1);
+            next += 2;
+            pre.push(Op::WaitWorkersIdle { n: 2 });
+            pre.push(Op::SpawnDependent { task: a, on: b });
+            pre.push(Op::Spawn { task: b, kind: if rng.bool() { Kind::Regular } else { Kind::Urgent }, panics: false, detach: false });
+            if rng.bool() {
+                pre.push(Op::Await { task: a });
+                pre.push(Op::Await { task: b });
+            } else {
+                pre.push(Op::Await { task: b });
+                pre.push(Op::Await { task: a });
+            }
+        }
+        let mut race = Vec::new();
+        if rng.bool() && usize::from(next) < MAX_TASKS {
+            race.push(Op::Spawn { task: next, kind: gen_kind(rng), panics: faulty && rng.chance(1, 4), detach: false });
+        }
+        let mut yields = Vec::new();
+        if faulty {
+            for idx in rng.subset(SITES.len(), 1, 4) {
+                // Yields at the sites of the spawn path would separate the two spawns; keep them to
+                // the worker and shutdown sites so the pair stays back to back.
+                if SITES[idx].starts_with("spawn:") || SITES[idx].starts_with("ensure:") {
+                    continue;
+                }
+                yields.push(YieldSite { site: SITES[idx].to_owned(), max: rng.range(1, 4) as u8, percent: *rng.pick(&[30_u8, 60, 100]) });
+            }
+        }
+        let drop_at = rng.below_usize(race.len() + 1);
+        Self {
+            processors,
+            workers_per_processor: 2,
+            threads: vec![ThreadScript { processor, start_yields: rng.below(4) as u8, pre, race, late: Vec::new(), hold_scheduler: false }],
+            dropper: 0,
+            drop_at,
+            yields,
+            gate_first_spawn: avoid(KEY_RACE),
+            directed: Directed::IdlePair,
+            sub_seed: rng.next_u64(),
+            hang_secs: 10,
+        }
+    }
+
+    /// A candidate produced by shrinking must still be a program that terminates on a correct pool.
+    fn well_formed(&self) -> bool {
+        for t in &self.threads {
+            for (i, op) in t.pre.iter().enumerate() {
+                if let Op::SpawnDependent { task, on } = op {
+                    let next_is_on = matches!(t.pre.get(i + 1), Some(Op::Spawn { task: b, panics: false, .. }) if b == on);
+                    let awaited = t.pre[i + 1..].iter().any(|o| matches!(o, Op::Await { task: a } if a == task));
+                    if !next_is_on || !awaited || self.workers_per_processor < 2 {
+                        return false;
+                    }
+                }
+            }
+            if t.race.iter().chain(&t.late).any(|o| matches!(o, Op::SpawnDependent { .. })) {
+                return false;
+            }
+            if self.threads.len() > 1 && t.pre.iter().any(|o| matches!(o, Op::WaitWorkersIdle { .. } | Op::SpawnDependent { .. })) {
+                return false;
+            }
+        }
+        true
     }
 
     /// Directed: thread 0 drops the pool, thread 1 makes the first spawn on its processor and is
@@ -417,7 +516,7 @@ impl VScenario {
             out.push(c);
         }
         let size = self.size();
-        out.retain(|c| c.size() < size);
+        out.retain(|c| c.size() < size && c.well_formed());
         out
     }
 }
